@@ -269,6 +269,11 @@ func (c *genCtx) gen(depth int, nn, incap bool) *Expr {
 					outer = "+"
 				}
 				return Group(outer, Not(inner))
+			case 2:
+				// a negated production reference: ~@@
+				if e := c.subProd(true, depth); e != nil {
+					return Not(e)
+				}
 			case 1:
 				// a negation of a captured negation, directly or through plain groups: ~( @~x )
 				in := Cap(Not(c.leaf()))
